@@ -78,27 +78,26 @@ impl BDDSet {
 
     pub fn union(&self, other: &Self) -> &Self {
         let _self = self.bdd.borrow().clone();
-        self.bdd
-            .replace(self.env.or(_self, other.bdd.borrow().clone()));
+        // release the borrow of `other` before replacing: `other` may be `self`
+        let _other = other.bdd.borrow().clone();
+        self.bdd.replace(self.env.or(_self, _other));
         self
     }
 
     pub fn intersect(&self, other: &Self) -> &Self {
         let _self = self.bdd.borrow().clone();
+        let _other = other.bdd.borrow().clone();
 
-        self.bdd
-            .replace(self.env.and(_self, other.bdd.borrow().clone()));
+        self.bdd.replace(self.env.and(_self, _other));
         self
     }
 
     pub fn complement(&self, other: &Self) -> &Self {
         let new: Rc<BDD<usize>> = self.bdd.borrow().clone();
+        let _other = other.bdd.borrow().clone();
 
         // set difference: keep the elements of self that are not in other
-        self.bdd.replace(
-            self.env
-                .and(new, self.env.not(other.bdd.borrow().clone())),
-        );
+        self.bdd.replace(self.env.and(new, self.env.not(_other)));
 
         self
     }
